@@ -4,7 +4,8 @@
    environment E (user map/test functions, re), every expression of any depth, every point.
    wf_query = the user's test functions are total (the DSL's own precondition). *)
 From Coq Require Import List ZArith NArith Bool.
-From TF Require Import Base Query Index DB Spec proofs.QueryP proofs.LawsP.
+From TF Require Import Base Query Index DB Spec proofs.QueryP proofs.LawsP QuerySem proofs.QueryGenP.
+From TF Require gen.QueryGen.
 Import ListNotations.
 
 Theorem C09_total : forall E q p, wf_query E q -> exists b, eval E q p = RB b.
@@ -50,6 +51,15 @@ Proof. exact double_negation. Qed.
 Theorem C09_noop_selects_everything : forall E a m db, spec_search E (QNoop a) m false db = filter (meas_pass m) db.
 Proof. exact noop_selects_everything. Qed.
 
+(* REGENERATED from tinyflux/queries.py on every run (gen/QueryGen.v): each comparison dunder of the DSL tests with the function of
+   `operator` the model's comparison stands for (== with operator.eq ... >= with operator.ge), matches calls re.match and search re.search,
+   & | ~ of both query classes apply operator.and_ / or_ / not_ *)
+Theorem C09_source_operator_table : (forall c, QueryGen.cmp_operator (meth_of_cmp c) = c) /\
+  QueryGen.matches_is_search = false /\ QueryGen.search_is_search = true /\
+  QueryGen.s_and_operator = BAnd /\ QueryGen.s_or_operator = BOr /\ QueryGen.s_not_operator = BNot /\
+  QueryGen.c_and_operator = BAnd /\ QueryGen.c_or_operator = BOr /\ QueryGen.c_not_operator = BNot.
+Proof. exact gen_tables. Qed.
+
 Print Assumptions C09_total.
 Print Assumptions C09_query_and_negation_partition.
 Print Assumptions C09_and_is_intersection.
@@ -64,3 +74,4 @@ Print Assumptions C09_and.
 Print Assumptions C09_or.
 Print Assumptions C09_missing_tag_false.
 Print Assumptions C09_none_order_false.
+Print Assumptions C09_source_operator_table.
